@@ -218,7 +218,7 @@ func (g *gen) run() {
 	g.topFrame = fr
 	nx := g.svGet(st, "$nxt", "Int")
 	g.entry.assume(app(">=", nx, "1"))
-	g.entry.assume(app("=", g.svGet(st, "$held", "(Array Ref Int)"), "((as const (Array Ref Int)) 0)"))
+	g.svGet(st, "$held", "(Array Ref Int)")
 	// defer sites and lock sites in source order
 	type posd struct {
 		pos int
@@ -440,6 +440,12 @@ func (g *gen) checkFrame(n *node, st, old *State) {
 	for _, ml := range fs.Modifies {
 		if ml.All == "heap" {
 			heapAll = true
+			continue
+		}
+		if strings.HasPrefix(ml.All, "cells(") {
+			if name, _, ok := g.cellsVar(ml.All, fs.PkgPath, fs.Imports); ok {
+				whole[name] = true
+			}
 			continue
 		}
 		if ml.All != "" {
